@@ -320,6 +320,7 @@ func main() {
 	}
 	quiet := time.Duration(atoi("quiet_ms")) * time.Millisecond
 	quietTimeouts, unfinishedAtFreeRun := 0, 0
+	quietThreads := []string{}
 	note := func(e event) {
 		t := threads[e.tid]
 		if e.point == "" {
@@ -356,6 +357,7 @@ func main() {
 				}
 			case <-time.After(quiet):
 				quietTimeouts++
+				quietThreads = append(quietThreads, t.Name)
 				break waitLoop // blocked on a real lock or channel; it continues when that is released
 			}
 		}
@@ -555,7 +557,7 @@ wait:
 	}
 	var sb bytes.Buffer
 	json.NewEncoder(&sb).Encode(map[string]interface{}{"threads": outs, "stuck": stuck, "events": log, "final": final, "final_flushed": finalFlushed, "final_reopened": finalReopened, "census": census, "flushes_in_free_run": nflush,
-		"quiet_timeouts": quietTimeouts, "unfinished_at_free_run": unfinishedAtFreeRun, "must_release": mustRelease, "unreleased": unreleased})
+		"quiet_timeouts": quietTimeouts, "quiet_threads": quietThreads, "unfinished_at_free_run": unfinishedAtFreeRun, "must_release": mustRelease, "unreleased": unreleased})
 	os.Stdout.Write(sb.Bytes())
 	if len(stuck) > 0 {
 		os.Exit(3) // leave the blocked goroutines behind
